@@ -421,6 +421,18 @@ def _workload(tier, rng, shard, nshards):
             call(t.dejitter, ref)  # the documented default is 0.001
         else:
             call(t.dejitter, ref, D)
+        if k % 9 == 4 and ents:
+            # the same pair on a time axis that runs below zero (times before a reference event): nothing about snapping to the
+            # nearest reference timestamp depends on where zero is
+            sh = rng.choice([2.0, 2.5, 4.0])
+            REC.cls("C14:dejitter:negative-time-axis")
+            try:
+                tn = make_tier(kind, "t", [tuple(x - sh for x in e[:-1]) + (e[-1],) for e in ents], -sh, 6.0 + 20 * D - sh)
+                rn = make_tier("P" if ref.tierType == "PointTier" else "I", "ref", [tuple(x - sh for x in e[:-1]) + (e[-1],) for e in ref.entries], -sh, 6.0 - sh)
+            except Exception:
+                tn = rn = None
+            if tn is not None:
+                call(tn.dejitter, rn, D)
         if k % 40 == 0:
             call(t.dejitter, make_tier(rng.choice("IP"), "noref", [], 0.0, 6.0), D)
         if k % 3 == 0 and len(ref.entries) >= 2:
